@@ -118,7 +118,8 @@ pub fn judge(_part: &str, case: &Case, tally: &mut Tally) -> Verdict {
     Verdict::Pass
 }
 
-const CHARS: [char; 24] = ['a', 'b', 'c', 'x', 'y', 'z', 'A', 'Z', '0', '9', '!', '~', '`', 'q', ' ', ' ', 'é', 'ß', '世', '界', '─', '│', '😀', '\u{a1}'];
+/// incl. the boundary code points U+00A0 (first non-C1, also White_Space), U+00A1, U+D7FF, U+E000, U+FFFD, U+10FFFF
+const CHARS: [char; 32] = ['a', 'b', 'c', 'x', 'y', 'z', 'A', 'Z', '0', '9', '!', '~', '`', 'q', ' ', ' ', 'é', 'ß', '世', '界', '─', '│', '😀', '\u{a1}', '\u{a0}', '\u{a0}', '\u{d7ff}', '\u{e000}', '\u{fffd}', '\u{10ffff}', '\u{3000}', '\u{2003}'];
 
 pub fn gen_line(src: &mut Src, w: usize) -> String {
     let len = match src.below(12) {
@@ -139,6 +140,11 @@ pub fn gen_line(src: &mut Src, w: usize) -> String {
         _ => (0..len).map(|_| *src.pick(&CHARS)).collect(),
     };
     // interior / leading spaces are fine; trailing ones too (U+0020 only)
+    // a line must not END in non-ASCII white space (str::trim_end would trim it, which the
+    // statement does not promise); interior occurrences are fine and wanted
+    if s.trim_end() != s.trim_end_matches(' ') {
+        s.push('x');
+    }
     if src.chance(1, 5) {
         s.push_str(&" ".repeat(src.range(1, w + 1)));
     }
@@ -180,6 +186,7 @@ fn enum_sweep() -> Vec<Case> {
         "世界世界世界世界\r\néééééééééééé\r\n😀😀😀".into(),
         (0..40).map(|i| format!("l{}", i)).collect::<Vec<_>>().join("\r\n"),
         "a\r\n\r\n\r\n\r\nb".into(),
+        "a\u{a0}b\u{a0}\u{a0}c\u{a1}\u{d7ff}\u{e000}\u{10ffff}d\r\n\u{a0}lead\u{3000}x".into(),
         "".into(),
         "12345678\r\n1234567812345678\r\n123456781234567812345678".into(),
     ];
@@ -200,7 +207,7 @@ pub fn run(env: &Env) -> PropRun {
     let j = |c: &Case, t: &mut Tally| judge("", c, t);
     let mut parts = vec![];
     let es = enum_sweep();
-    parts.push(run_part(env, "enum-width-height-sweep", es.len(), true, "9 fixed texts x every width 1..=26 x every height 1..=8 (and a second derived size each)", &|i| es.get(i).cloned(), &j));
+    parts.push(run_part(env, "enum-width-height-sweep", es.len(), true, "10 fixed texts x every width 1..=26 x every height 1..=8 (and a second derived size each)", &|i| es.get(i).cloned(), &j));
     parts.push(random_part(env, "random-texts", env.tier.scale(200_000, 30), &gen_case, &j));
     PropRun {
         parts,
